@@ -1,8 +1,8 @@
 /-
 C16 — the compression hint decides how a content is stored.
-(first rung: the decision table; the creator-level statement is added from Lemmas/Creator.lean)
 -/
 import JubakoModel.Model.ContentSpec
+import JubakoModel.Lemmas.Creator
 
 namespace Jubako
 
@@ -11,7 +11,7 @@ inductive Hint where
   deriving Repr, DecidableEq
 
 /-- `ContentPackCreator::detect_compression`: pack without compression ⇒ raw; `Yes` ⇒ compressed;
-    `No` ⇒ raw; `Detect` ⇒ the entropy heuristic's answer `h` -/
+    `No` ⇒ raw; `Detect` ⇒ the entropy heuristic's answer `h` (an arbitrary bit here) -/
 def detectCompression (packCompresses : Bool) (hint : Hint) (heuristic : Bool) : Bool :=
   if !packCompresses then false
   else match hint with
@@ -23,5 +23,93 @@ theorem c16_decision (pc : Bool) (hint : Hint) (h : Bool) :
     ((hint = .no ∨ pc = false) → detectCompression pc hint h = false) ∧
     ((hint = .yes ∧ pc = true) → detectCompression pc hint h = true) := by
   cases pc <;> cases hint <;> simp [detectCompression]
+
+/-- an insertion request: bytes, hint, and the heuristic's answer should it be consulted -/
+structure Request where
+  data : Bytes
+  hint : Hint
+  heuristic : Bool
+
+def Request.item (pc : Bool) (r : Request) : Item := ⟨r.data, detectCompression pc r.hint r.heuristic⟩
+
+/-- **The hint decides the storage class**, for every insertion sequence and every arrival order:
+    the content inserted i-th is found, at its address, in a cluster whose class is
+    *uncompressed* when the hint is `no` or the pack does not compress, and *compressed* when the
+    hint is `yes` in a compressing pack; in both cases the blob at that address is the inserted
+    bytes.  (That an uncompressed cluster holds its blobs verbatim and a compressed one carries the
+    pack's algorithm byte is `Cluster.encode`, checked byte-exactly by the correspondence.) -/
+theorem c16_hint (pc : Bool) (reqs : List Request) (arrival : List Cluster)
+    (hp : ((Creator.init.addAll (reqs.map (Request.item pc))).finalize).1.Perm arrival)
+    (i : Nat) (hi : i < reqs.length) :
+    let r := reqs.getD i ⟨[], .no, false⟩
+    let info := ((Creator.init.addAll (reqs.map (Request.item pc))).finalize).2.getD i (0,0)
+    ((r.hint = .no ∨ pc = false) → resolve arrival info = some (r.data, false)) ∧
+    ((r.hint = .yes ∧ pc = true) → resolve arrival info = some (r.data, true)) := by
+  have h := creator_roundtrip_any_arrival (reqs.map (Request.item pc)) arrival hp i (by simpa using hi)
+  have hg : (reqs.map (Request.item pc)).getD i ⟨[], false⟩ = Request.item pc (reqs.getD i ⟨[], .no, false⟩) := by
+    simp [List.getD, List.getElem?_map, hi]
+  rw [hg] at h
+  constructor
+  · intro hc
+    have hd := (c16_decision pc (reqs.getD i ⟨[], .no, false⟩).hint (reqs.getD i ⟨[], .no, false⟩).heuristic).1 hc
+    show resolve arrival _ = _
+    rw [h]; simp only [Request.item, hd]
+  · intro hc
+    have hd := (c16_decision pc (reqs.getD i ⟨[], .no, false⟩).hint (reqs.getD i ⟨[], .no, false⟩).heuristic).2 hc
+    show resolve arrival _ = _
+    rw [h]; simp only [Request.item, hd]
+
+/-- dedup adder (`CachedContentAdder`): a map from content key to the address of its first
+    insertion.  `key` stands for blake3; nothing is assumed about it. -/
+def dedupAdd (key : Bytes → Bytes) (st : List (Bytes × Nat) × List Bytes) (d : Bytes) :
+    (List (Bytes × Nat) × List Bytes) × Nat :=
+  match st.1.find? (fun e => e.1 == key d) with
+  | some e => (st, e.2)
+  | none => ((st.1 ++ [(key d, st.2.length)], st.2 ++ [d]), st.2.length)
+
+/-- invariant of the dedup adder: every cache entry points to a stored content with that key -/
+def DedupInv (key : Bytes → Bytes) (st : List (Bytes × Nat) × List Bytes) : Prop :=
+  ∀ e ∈ st.1, ∃ d, st.2[e.2]? = some d ∧ key d = e.1
+
+theorem dedup_inv_step (key : Bytes → Bytes) (st) (d : Bytes) (h : DedupInv key st) :
+    DedupInv key (dedupAdd key st d).1 := by
+  unfold dedupAdd
+  split
+  · exact h
+  · intro e he
+    simp only [List.mem_append, List.mem_singleton] at he
+    rcases he with he | he
+    · obtain ⟨d', h1, h2⟩ := h e he
+      refine ⟨d', ?_, h2⟩
+      have : e.2 < st.2.length := by
+        rcases Nat.lt_or_ge e.2 st.2.length with hl | hl
+        · exact hl
+        · simp [List.getElem?_eq_none hl] at h1
+      simp [List.getElem?_append_left this, h1]
+    · subst he
+      exact ⟨d, by simp, rfl⟩
+
+/-- **Dedup**: the address returned for `d` holds a content with the same key as `d` — i.e. the
+    same bytes, or an explicit collision of the key function; and a content whose key is already
+    cached is not stored again. -/
+theorem c16_dedup (key : Bytes → Bytes) (st) (d : Bytes) (h : DedupInv key st) :
+    (∃ d', (dedupAdd key st d).1.2[(dedupAdd key st d).2]? = some d' ∧ key d' = key d) ∧
+    ((∃ e ∈ st.1, e.1 = key d) → (dedupAdd key st d).1 = st) := by
+  constructor
+  · unfold dedupAdd
+    split
+    · rename_i e he
+      have hm := List.mem_of_find?_eq_some he
+      have hk := List.find?_some he
+      obtain ⟨d', h1, h2⟩ := h e hm
+      exact ⟨d', h1, by rw [h2]; simpa using hk⟩
+    · exact ⟨d, by simp, rfl⟩
+  · intro ⟨e, he, hk⟩
+    unfold dedupAdd
+    split
+    · rfl
+    · rename_i hnone
+      have := List.find?_eq_none.mp hnone e he
+      simp [hk] at this
 
 end Jubako
